@@ -331,6 +331,11 @@ func (t *WeightedMerkleTrie) Rollback() {
 
 // DeleteNodes deletes the nodes from the underlying storage and sets nextDelete to the tempDeleted nodes collected in previous mutations
 func (t *WeightedMerkleTrie) DeleteNodes() error {
+	if t.root != nil && t.root.Dirty() {
+		// the nodes collected so far were superseded by mutations that are not committed yet, the last
+		// committed root still needs them: collect garbage only between a commit and the next mutation
+		return nil
+	}
 	if len(t.deleted) > 0 {
 		batcher := t.db.NewBatch()
 		for key := range t.deleted {
